@@ -321,8 +321,12 @@ class Ctx:
         raise ValueError(c)
 
     # ---- enums / subclasses ---------------------------------------------------------------------
-    def add_enum(self, name, member_vals):
-        self.enums[name] = enum.Enum(name, [(f'M{i}', self.dec(v)) for i, v in enumerate(member_vals)])
+    def add_enum(self, name, member_vals, mixin=None):
+        members = [(f'M{i}', self.dec(v)) for i, v in enumerate(member_vals)]
+        if mixin:   # `class Color(str, Enum)`: members are instances of the mix-in type too
+            self.enums[name] = enum.Enum(name, members, type={'str': str, 'int': int}[mixin])
+        else:
+            self.enums[name] = enum.Enum(name, members)
 
     def add_sub(self, name, base, attrs=None):
         self.subs[name] = (type(name, (SCALARS.get(base) or {'dict': dict}[base],), dict(attrs or {})), base)
